@@ -47,6 +47,17 @@ Theorem C20_carries_token_and_tag : forall f, In f client_ops -> forall token a 
   /\ (forall i, of_tag_param f = Some i -> nth i a "" <> "" -> rq_etag r = nth i a "" \/ rq_ifmatch r = nth i a "").
 Proof. exact (fun f _ => t_carries C20_src_table_wf f). Qed.
 
+(* a sequence of operations on one client instance: the observation of each operation is that of the operation run
+   alone (it does not depend on the operations before or after it), and each of its requests carries exactly the
+   tag given to THAT call (tag_value = "" when the method has no tag parameter or none was given) *)
+Theorem C20_sequence_requests_independent : forall token pre c post,
+  nth_error (run_sequence token (pre ++ c :: post)) (length pre)
+    = Some (run_call_env (oc_fact c) token (oc_args c) (oc_nums c) (oc_env c))
+  /\ forall r, In r (co_requests (run_call_env (oc_fact c) token (oc_args c) (oc_nums c) (oc_env c))) ->
+       (rq_etag r = tag_value (oc_fact c) (oc_args c) /\ rq_ifmatch r = "")
+       \/ (rq_etag r = "" /\ rq_ifmatch r = tag_value (oc_fact c) (oc_args c)).
+Proof. exact (sequence_requests_independent (proj1 (proj2 (proj2 (proj2 (table_ok_parts C20_src_table_wf)))))). Qed.
+
 (* ---- once ------------------------------------------------------------------------------------------------- *)
 (* for ALL server behaviours (any sequence of 5xx replies and connection errors, of any length): an operation
    that is not a GET is never submitted twice; with valid names it is submitted exactly once and the first reply
